@@ -307,13 +307,31 @@ class SymArray:
         return _wrap(r, self.dt)
 
     def __setitem__(self, key, value):
+        if isinstance(key, SymArray) and key.dt == _B and key.a.shape == self.a.shape:
+            # boolean-mask assignment; symbolic mask entries become if-then-else (no path fork)
+            va, _ = _to_obj(value)
+            if va.ndim == 0:
+                va = va.copy()
+                if self.dt in (_F, _I, _C):
+                    _cast_elems(va, self.dt)
+                v = va.item()
+                fm, fs = key.a.reshape(-1), self.a.reshape(-1) if self.a.flags.c_contiguous else None
+                if fs is None:
+                    raise Unsupported("mask assignment on a non-contiguous array")
+                for k in range(fm.shape[0]):
+                    m = fm[k]
+                    if m is True:
+                        fs[k] = v
+                    elif m is not False:
+                        fs[k] = SC.ite(m, v, fs[k])
+                return
         key = self._ix(key)
         if isinstance(key, _np.ndarray) and key.dtype == object:
             raise Unsupported("assignment through a symbolic mask")
         va, vdt = _to_obj(value)
-        if va.dtype == object:
-            va = va.copy()
-            _cast_elems(va, self.dt) if self.dt in (_F, _I) and vdt == _C else None
+        va = va.copy()
+        if self.dt in (_F, _I, _C):
+            _cast_elems(va, self.dt)
         self.a[key] = va if va.ndim else va.item()
 
     # ---- arithmetic
